@@ -68,7 +68,8 @@ def harnesses(tier, seed):
             hs.append(compose(ty, opname, (2 if ty == "FLF" else 3) if tier == "quick" else (3 if ty == "FLF" else 4)))
     if tier == "quick":
         hs += [scalar("count", "MF", 3, 2, 1), scalar("count", "FMF", 3, 2, 2), scalar("reduce_xor", "FLF", 3, 2, 1),
-               scalar("find", "MF", 3, 2, 2), scalar("find", "FMF", 3, 2, 1), scalar("reduce_add", "FM", 3, 2, 2)]
+               scalar("find", "MF", 3, 2, 2), scalar("find", "FMF", 3, 2, 1), scalar("reduce_add", "FM", 3, 2, 2),
+               scalar("reduce_xor", "FMF", 3, 2, 1), scalar("reduce_xor", "MF", 3, 2, 1)]
         for ty, cvs in (("M", [(1, 1)]), ("MF", [(1, 0), (1, 1)]), ("FMF", [(0, 1), (1, 1)]), ("FLF", [(2, 1), (0, 2)])):
             for owners in ([1, 0], [0, 0]):
                 for k in cvs:
